@@ -22,7 +22,7 @@ package generator
 // write(s): the returned range starts at the position before the write and ends at the position after it;
 // the output only grows and the position stays in step with it; for well-formed UTF-8 exactly the bytes of
 // s are appended (ill-formed bytes are re-encoded as U+FFFD by the range loop - outside the claim).
-//@ func (*RangeWriter) write [C07]
+//@ func (*RangeWriter) write [C07, C16]
 //@   requires rw != nil && implies(!failedDuring, rwOK(rw))
 // machine arithmetic: line, column and index counters do not wrap (generated files are far below 2 GiB)
 //@   assume entry: len(out(rw.w)) + 4*len(s) < 1<<31
@@ -44,37 +44,66 @@ package generator
 // the returned range is the range of s itself.
 //@ spec wroteLast(rw, r, s) = rwOK(rw) && r.To == rw.Current && implies(inL(s, UTF8_VALID), isSuffix(s, out(rw.w)) && r.From.Index == len(out(rw.w)) - len(s) && r.From.Line == nlCount(out(rw.w), r.From.Index) && r.From.Col == r.From.Index - lineStart(out(rw.w), r.From.Index) && r.To.Line == r.From.Line + nlCount(s, len(s)) && r.To.Col == colAfter(r.From.Col, s, len(s)))
 
-//@ func (*RangeWriter) Write [C07]
+// ---------------------------------------------------------------------------
+// C16 (literal protocol): static text is collected in Go-string-escaped form; closeLiteral numbers the literals in
+// emission order, records literal number k as Literals[k-1] and emits the call WriteString(buffer, k, "literal").
+// The development text file is the literals joined by line feeds, so no literal may contain a raw line feed.
+//@ spec litsOK(rw) = len(rw.Literals) == rw.index && rw.index >= 0 && inL(out(rw.builder), NO_0a_STAR) && implies(!rw.inLiteral, out(rw.builder) == "") && forall(i, 0, len(rw.Literals), inL(rw.Literals[i], NO_0a_STAR))
+
+// a pending literal, if any, has been closed: it got the next number; nothing else about the literals changed
+//@ spec flushed(rw, idx0, n0, pend0, inLit0) = !rw.inLiteral && out(rw.builder) == "" && rw.index == idx0 + ite(inLit0, 1, 0) && implies(inLit0, rw.Literals[rw.index-1] == pend0)
+
+//@ func (*RangeWriter) Write [C07, C16]
+//@   requires {C16} litsOK(rw)
+//@   ensures {C16} litsOK(rw) && flushed(rw, old(rw.index), old(len(rw.Literals)), old(out(rw.builder)), old(rw.inLiteral))
+//@   ensures {C16} forall(i, 0, old(len(rw.Literals)), rw.Literals[i] == old(rw.Literals)[i])
 //@   requires rw != nil && rw.builder != nil && implies(!failedDuring, rwOK(rw))
 //@   modifies rw.inLiteral, rw.index, rw.Literals, out(rw.builder), rw.Current, out(rw.w), failedDuring
 //@   ensures isPrefix(old(out(rw.w)), out(rw.w)) && implies(err != nil, failedDuring) && implies(old(failedDuring), failedDuring) && rw.builder != nil
 //@   ensures implies(!failedDuring, wroteLast(rw, r, s))
 
-//@ func (*RangeWriter) WriteIndent [C07]
+//@ func (*RangeWriter) WriteIndent [C07, C16]
+//@   requires {C16} litsOK(rw)
+//@   ensures {C16} litsOK(rw) && flushed(rw, old(rw.index), old(len(rw.Literals)), old(out(rw.builder)), old(rw.inLiteral))
+//@   ensures {C16} forall(i, 0, old(len(rw.Literals)), rw.Literals[i] == old(rw.Literals)[i])
 //@   requires rw != nil && rw.builder != nil && implies(!failedDuring, rwOK(rw))
 //@   modifies rw.inLiteral, rw.index, rw.Literals, out(rw.builder), rw.Current, out(rw.w), failedDuring
 //@   running isPrefix(old(out(rw.w)), out(rw.w))
 //@   ensures isPrefix(old(out(rw.w)), out(rw.w)) && implies(err != nil, failedDuring) && implies(old(failedDuring), failedDuring) && rw.builder != nil
 //@   ensures implies(!failedDuring, wroteLast(rw, r, s))
 
-//@ func (*RangeWriter) closeLiteral [C07]
+//@ func (*RangeWriter) closeLiteral [C07, C16]
+//@   requires {C16} litsOK(rw)
+//@   ensures {C16} litsOK(rw) && rw.index == old(rw.index) + 1 && rw.Literals[rw.index-1] == old(out(rw.builder)) && out(rw.builder) == "" && !rw.inLiteral
+// every earlier literal keeps its number
+//@   ensures {C16} forall(i, 0, old(len(rw.Literals)), rw.Literals[i] == old(rw.Literals)[i])
+// the emitted call carries that number and that literal
+//@   let TEXT = sb.String() @ before rw.write#1
+//@   ensures {C16} contains(ghost(TEXT), cat("templruntime.WriteString(templ_7745c5c3_Buffer, ", itoa(rw.index), ", \"", old(out(rw.builder)), "\")\n"))
+//@   ensures {C16} implies(!failedDuring && inL(ghost(TEXT), UTF8_VALID), sub(out(rw.w), old(len(out(rw.w))), old(len(out(rw.w))) + len(ghost(TEXT))) == ghost(TEXT))
 //@   requires rw != nil && rw.builder != nil && implies(!failedDuring, rwOK(rw))
 //@   modifies rw.inLiteral, rw.index, rw.Literals, out(rw.builder), rw.Current, out(rw.w), failedDuring
 //@   running isPrefix(old(out(rw.w)), out(rw.w))
 //@   ensures isPrefix(old(out(rw.w)), out(rw.w)) && implies(err != nil, failedDuring) && implies(old(failedDuring), failedDuring) && rw.builder != nil
 //@   ensures implies(!failedDuring, rwOK(rw))
 
-//@ func (*RangeWriter) writeErrorHandler [C07]
+//@ func (*RangeWriter) writeErrorHandler [C07, C16]
+//@   requires {C16} litsOK(rw) && !rw.inLiteral
+//@   ensures {C16} litsOK(rw) && rw.index == old(rw.index) && !rw.inLiteral && out(rw.builder) == old(out(rw.builder))
+//@   ensures {C16} forall(i, 0, old(len(rw.Literals)), rw.Literals[i] == old(rw.Literals)[i])
 //@   requires rw != nil && rw.builder != nil && implies(!failedDuring, rwOK(rw))
 //@   modifies rw.inLiteral, rw.index, rw.Literals, out(rw.builder), rw.Current, out(rw.w), failedDuring
 //@   running isPrefix(old(out(rw.w)), out(rw.w))
 //@   ensures isPrefix(old(out(rw.w)), out(rw.w)) && implies(err != nil, failedDuring) && implies(old(failedDuring), failedDuring) && rw.builder != nil
 //@   ensures implies(!failedDuring, rwOK(rw))
 
-//@ func (*RangeWriter) WriteStringLiteral [C07]
+//@ func (*RangeWriter) WriteStringLiteral [C07, C16]
 //@   requires rw != nil && rw.builder != nil
+// static text handed to the literal collector has no raw line feed (it would split the line of the text file)
+//@   requires {C16} inL(s, NO_0a_STAR) && litsOK(rw)
 //@   modifies rw.inLiteral, out(rw.builder)
 //@   ensures err == nil
+//@   ensures {C16} litsOK(rw) && out(rw.builder) == cat(old(out(rw.builder)), s) && rw.inLiteral
 
 // ---------------------------------------------------------------------------
 // C07, generator side: every method of the generator keeps the writer's position in step with its output and
@@ -84,17 +113,24 @@ package generator
 //@ spec smOK(sm) = sm.SourceLinesToTarget != nil && sm.TargetLinesToSource != nil && sm.SourceSymbolRangeToTarget != nil && sm.TargetSymbolRangeToSource != nil && forall(l, 0, 1<<32, implies(has(sm.SourceLinesToTarget, l), sm.SourceLinesToTarget[l] != nil)) && forall(l, 0, 1<<32, implies(has(sm.TargetLinesToSource, l), sm.TargetLinesToSource[l] != nil)) && forall(l, 0, 1<<32, implies(has(sm.SourceSymbolRangeToTarget, l), sm.SourceSymbolRangeToTarget[l] != nil)) && forall(l, 0, 1<<32, implies(has(sm.TargetSymbolRangeToSource, l), sm.TargetSymbolRangeToSource[l] != nil))
 //@ spec genPtrs(g) = g != nil && g.w != nil && g.w.builder != nil && g.sourceMap != nil && smOK(g.sourceMap)
 
-//@ methods (*generator) [C07]
+//@ methods (*generator) [C07, C16]
 //@   requires genPtrs(g) && implies(!failedDuring, rwOK(g.w))
+//@   requires {C16} litsOK(g.w)
+//@   ensures {C16} litsOK(g.w)
 //@   modifies *
 //@   running isPrefix(old(out(g.w.w)), out(g.w.w)) && implies(old(failedDuring), failedDuring)
 //@   ensures isPrefix(old(out(g.w.w)), out(g.w.w)) && implies(lasterr != nil, failedDuring) && implies(old(failedDuring), failedDuring) && genPtrs(g)
 //@   ensures implies(!failedDuring, rwOK(g.w))
+//@   loop 0 invariant {C16} litsOK(g.w)
 //@   loop 0 invariant genPtrs(g) && implies(errvar() != nil, failedDuring) && implies(!failedDuring, rwOK(g.w)) && isPrefix(old(out(g.w.w)), out(g.w.w)) && implies(old(failedDuring), failedDuring)
 
 // writeAttributeCSS replaces the expression of a class attribute by one it makes up (no source range); the
 // rewritten attribute is then written by writeExpressionAttributeValueDefault, which therefore has to cope with
 // expressions that do not come from the parser.
-//@ func (*generator) writeExpressionAttributeValueDefault [C07]
+//@ func (*generator) writeExpressionAttributeValueDefault [C07, C16]
 //@   usemethods
 //@   noinv attr
+
+// escapeQuotes: the body of strconv.Quote's result - Go-string-escaped text without raw line feeds
+//@ func escapeQuotes [C16]
+//@   ensures inL(result, NO_0a_STAR)
